@@ -468,6 +468,9 @@ def check_C39(tier):
     rng = core.rng_for(prop + ":cells", seed, 0)
     if tier == "quick":
         cells = [C39_CELLS[0]] + rng.sample(C39_CELLS[1:], 2)
+    elif budget < 1500:
+        # every cell costs 1-2 minutes of builds before its first run: with a small budget take a seeded subset
+        cells = [C39_CELLS[0]] + rng.sample(C39_CELLS[1:], max(2, min(len(C39_CELLS) - 1, int(budget // 150))))
     else:
         cells = list(C39_CELLS)
     per_cell = budget / len(cells)
